@@ -40,7 +40,8 @@ RULE = ("every template (quick 8 messages per template, thorough 16 x 16; x5 for
         "the safe-mode clause. distinct_nontrivial = distinct (message, block-count vector, beautify, table) round trips"
         ". Round-5 additions: the replacement table is the caller's - value tables, a table whose values are all zero-like, a table of callables (printed with values, parsed with callables); a directed law for what [[NAME]] stands for (table value, called if callable, whatever its truthiness; undefined names are errors)"
         ". Round 7: doubles that are exact singles; pairs of messages carrying the same payload under different switching siblings printed alternately from short-lived objects"
-        ". Round 8: one long-lived message shown, edited in place field by field (values of another message of its type, neighbours kept), shown again; payloads whose trailing string lacks its terminator; texts produced before a templates reload - successful, failing at once, failing a third of the way in (injected at importlib.reload) - parsed afterwards")
+        ". Round 8: one long-lived message shown, edited in place field by field (values of another message of its type, neighbours kept), shown again; payloads whose trailing string lacks its terminator; texts produced before a templates reload - successful, failing at once, failing a third of the way in (injected at importlib.reload) - parsed afterwards"
+        ". Round 9: only the switching sibling of a packed field is changed on a live message (every value its serializer knows); pairs found by search - bytes that are canonical under sibling value A and readable but not canonical under B - shown under A, then B (same object and a fresh message)")
 ASSUMPTIONS = [
     "packet id, acks and extra header bytes are not part of the text: compared bodies use the same header fields",
     "float values are NaN-free (as C01); NaN has no stable textual form",
